@@ -1,31 +1,128 @@
 """C02 - Map, Dic, HashMap, HashDic and Set behave as finite maps and sets (spec/FiniteMap.tla, spec/HashChains.tla)."""
+import concurrent.futures as cf
 import os
 import subprocess
+import time
 import vlib
 
 META = {
-    "engine": "FiniteMap.tla",
-    "technique": "TLC",
+    "engine": "FiniteMap.tla, HashChains.tla, Trace_FiniteMap.tla",
+    "technique": "TLC exhaustive enumeration of FiniteMap.tla histories (shared handles, clones, merges, set algebra) replayed "
+                 "transition-by-transition on Map/Dic/HashMap/HashDic/Set (16 key/value/table-size instantiations, colliding "
+                 "keys) under ASan+LSan; implementation-shaped HashChains.tla (chains, rehash, lock-step ==) model-checked as a "
+                 "refinement of FiniteMap and replayed on tiny tables; recorded random executions (thousands of entries, all "
+                 "growth thresholds) validated against the same spec actions",
     "design_ref": "DESIGN.md section 6, C02",
-    "level_text": "",
-    "level_note": "",
+    "level_text": "TLC enumerates every history of public map/set calls through 3 handles (set, operator[], remove, clear, add/merge, "
+                  "clone, dup, copy/assign/drop of handles, default construction, union/intersection/difference) up to the configured "
+                  "bound on FiniteMap.tla and checks the specification's own properties (a lookup finds exactly the keys present with "
+                  "their latest values, length = number of distinct keys, clone independence, extensional set algebra). HashChains.tla "
+                  "transcribes the hash table (bins, chains, 7/8 rehash x8, dup, ==) and TLC checks that it implements FiniteMap. Every "
+                  "transition of both state graphs is replayed on the real containers under ASan/LSan and the projected state (sorted "
+                  "entries, length, has/find/get/const [] for every key of the universe, keys()/array(), reference count, pairwise "
+                  "==/!=/contains/containsAny, live value instances) is compared with what TLC emitted. Recorded executions of the real "
+                  "containers are accepted by TLC as behaviours of the same actions.",
+    "level_note": "Bounded (constants in spec/MC_FiniteMap_*.cfg, MC_FiniteSet_*.cfg, MC_HashChains*.cfg); beyond them only the recorded "
+                  "random executions apply. Enumeration order of hash containers is left unspecified (compared as a multiset). Open "
+                  "findings GrowWhileShared (Map/Dic) and RehashWhileShared (HashMap/HashDic/Set) are excluded by hazard predicates "
+                  "evaluated on the real rc()/cap()/table size; TLC exhibits RehashWhileShared, the chain-head removal and the "
+                  "lock-step == as counterexamples of HashChains.tla with the corresponding switch on. Self-assignment of one and "
+                  "the same HashMap object (m = m clears it) is outside the property and not generated. Memory errors and leaks are "
+                  "observed by ASan/LSan on the generated executions, not decided by the model.",
 }
+
+# expected-counterexample runs of the implementation-shaped model: switch -> invariants one of which TLC must report
+EXPECT = [
+    ("MC_HashChains_headbug", ("Refines", "LengthOK", "LookupOK"), "remove() of a chain head drops the rest of the chain"),
+    ("MC_HashChains_eqlockstep", ("EqualOK",), "operator== walking both enumerations depends on insertion order"),
+    ("MC_HashChains_allowsharedrehash", ("Refines", "LengthOK", "LookupOK", "SharingOK", "EqualOK"), "rehash() while the table is shared"),
+]
+
+
+def _model_and_replay(ctx, rep, spec, cfg, label, workers, jobs, ignore=(), args=()):
+    cases = os.path.join(ctx.tmp, "%s.cases" % cfg)
+    ctx.model(spec, cfg, emit_to=cases, timeout=ctx.pick(900, 3000), xmx="6g", workers=workers, ignore_cov=ignore)
+    m = ctx.replay(rep, cases, label=label, timeout=ctx.pick(900, 5400), jobs=jobs, args=args)
+    os.unlink(cases)
+    return m
 
 
 def run(ctx):
     lib = vlib.build_lib("asan")
     rep = vlib.build_harness(lib, "c02_replay", ["c02_replay.cpp"])
-    cases = os.path.join(ctx.tmp, "c02.cases")
-    r = ctx.model("FiniteMap", "MC_FiniteMap_quick", emit_to=cases, timeout=600, xmx="4g", workers=4, ignore_cov=("Union", "Inter", "Diff"))
-    ctx.replay(rep, cases, label="R/FiniteMap", timeout=900, jobs=12)
-    r = ctx.model("FiniteMap", "MC_FiniteSet_quick", emit_to=cases, timeout=600, xmx="4g", workers=4, ignore_cov=("Index",))
-    ctx.replay(rep, cases, label="R/FiniteSet", timeout=900, jobs=12)
-    r = ctx.model("HashChains", "MC_HashChains_quick", emit_to=cases, timeout=600, xmx="4g", workers=4)
-    ctx.replay(rep, cases, label="R/HashChains", timeout=900, jobs=12, args=["--strict-shape"])
+    rec = vlib.build_harness(lib, "c02_record", ["c02_record.cpp"])
+    tier = "quick" if ctx.quick else "thorough"
+    ncpu = vlib.NCPU
+    # the first group is the long pole: it gets half of the TLC workers and, when the other groups are done, all cores
+    big = (max(2, ncpu // 2), ncpu)
+    small = (max(2, ncpu // 5), max(2, ncpu // 4))
+    setonly = ("Index",)
+    maponly = ("Union", "Inter", "Diff")
+    groups = [
+        [("FiniteMap", "MC_FiniteMap_%s" % tier, "R/FiniteMap", maponly, ())],
+        [("FiniteMap", "MC_FiniteSet_%s" % tier, "R/FiniteSet", setonly, ()),
+         ("FiniteMap", "MC_FiniteMap_order", "R/FiniteMap-order", maponly + setonly, ()),
+         ("FiniteMap", "MC_FiniteSet_order", "R/FiniteSet-order", setonly, ())],
+        [("HashChains", "MC_HashChains_%s" % tier, "R/HashChains", (), ()),
+         ("HashChains", "MC_HashChainsSet_%s" % tier, "R/HashChains-set", ("Index",), ())],
+    ]
+    if not ctx.quick:
+        groups.append([("HashChains", "MC_HashChains2_thorough", "R/HashChains-nb2", (), ())])
+    shape = {"cases": 0, "differs": 0}
+
+    def group(g):
+        for spec, cfg, label, ignore, args in g:
+            wk, jb = big if g is groups[0] else small
+            m = _model_and_replay(ctx, rep, spec, cfg, label, wk, jb, ignore, args)
+            if spec == "HashChains":
+                shape["cases"] += m["executed"] + m["skipped"].get("ShapeDiffers", 0)
+                shape["differs"] += m["skipped"].get("ShapeDiffers", 0)
+
+    def expected():
+        for cfg, invs, what in EXPECT:
+            r = vlib.tlc("HashChains", cfg, workers=2, timeout=600, xmx="2g")
+            v = r.violated()
+            if v not in invs:
+                raise vlib.HarnessError("HashChains/%s: expected a counterexample (%s) for '%s', TLC said %s\n%s" %
+                                        (cfg, "/".join(invs), what, v, r.tail(30)))
+            ctx.engines.append("HashChains/%s: counterexample as expected (%s violated after %d states): %s" % (cfg, v, r.generated, what))
+            vlib.log(ctx.engines[-1])
+
+    def traces():
+        files = ctx.record(rec, ctx.pick(8, 40), ctx.pick(25000, 60000), "V/FiniteMap")
+        ctx.validate_traces("Trace_FiniteMap", "Trace_FiniteMap", files, label="V/FiniteMap", timeout=ctx.pick(600, 3000),
+                            parallel=max(2, ncpu // 4))
+
+    with cf.ThreadPoolExecutor(8) as ex:
+        futs = []
+        for g in groups:
+            futs.append(ex.submit(group, g))
+            time.sleep(0.7)     # vlib's TLC run counter is not thread-safe: stagger the starts
+        futs.append(ex.submit(traces))
+        time.sleep(0.7)
+        futs.append(ex.submit(expected))
+        for f in futs:
+            f.result()
+    ctx.known_hits.pop("ShapeDiffers", None)
+    ctx.extra["hashchains_shape"] = ("%d of %d replayed HashChains transitions reproduce the transcribed table size and enumeration "
+                                     "order exactly" % (shape["cases"] - shape["differs"], shape["cases"]))
+    ctx.exhaustive = True
+    ctx.rule = ("one case per transition of the FiniteMap / HashChains state graphs (history of public calls + expected projected state), "
+                "each executed on every container instantiation of its mode; non-trivial = history with >= 2 calls; distinct = distinct "
+                "case lines (hash)")
+    ctx.assumptions += [
+        "exhaustive within the constants of the MC_*_%s.cfg files; beyond them only the recorded random executions apply" % tier,
+        "memory errors/leaks are observed by ASan/LSan on the replayed and recorded executions, not decided by the model",
+        "key ids are mapped monotonically onto concrete keys chosen to collide (1,257,513,2049; \"Ab\",\"BA\",\"C \"), to share long "
+        "prefixes, and onto integer extremes; hash tables start with 256 bins (default) or 1, 2, 4, 16 bins (HashMap(n))",
+        "a HashMap has no merge call: 'add' is executed as an enumeration of the source with assignment into the target",
+    ]
 
 
 def replay(path):
     lib = vlib.build_lib("asan")
+    if os.path.basename(path).startswith("rec-") or path.endswith(".ndjson"):
+        return vlib.replay_recorded(path, lib, "c02_record", ["c02_record.cpp"], "Trace_FiniteMap", "Trace_FiniteMap")
     rep = vlib.build_harness(lib, "c02_replay", ["c02_replay.cpp"])
     r = subprocess.run([rep, "--single", path], env=vlib.run_env())
     return 1 if r.returncode == 1 else (0 if r.returncode == 0 else 2)
